@@ -437,3 +437,175 @@ func ruleNoSelfDeadlock(p *Prog, r *Out) {
 		r.bad("calls under a lock", "?", "no call made while a mutex is held was found: the lock-state analysis has lost its anchors")
 	}
 }
+
+// ---------------------------------------------------------------- lock order
+
+func init() {
+	register(&Rule{
+		Name: "lock-order", Props: []string{"C12", "C17", "C19"}, Engine: "OWN", Floor: 3,
+		Doc: "the 'held while acquiring' relation between the package's mutexes (lock state at each call site by dominance, acquisitions of the callee by transitive closure) has no cycle: two goroutines taking the same two mutexes in opposite orders can each end up waiting for the other",
+		Run: ruleLockOrder,
+	})
+}
+
+func ruleLockOrder(p *Prog, r *Out) {
+	direct := map[*ssa.Function]map[string]bool{}
+	callees := map[*ssa.Function][]*ssa.Function{}
+	var fns []*ssa.Function
+	type acqSite struct {
+		in   ssa.Instruction
+		lock string
+	}
+	var sites []acqSite
+	for _, f := range p.allFuncs() {
+		if f.Blocks == nil {
+			continue
+		}
+		fns = append(fns, f)
+		for _, b := range f.Blocks {
+			for _, x := range b.Instrs {
+				ci, ok := x.(ssa.CallInstruction)
+				if !ok {
+					continue
+				}
+				if _, isGo := x.(*ssa.Go); isGo {
+					continue
+				}
+				if _, isDefer := x.(*ssa.Defer); isDefer {
+					continue
+				}
+				name := p.calleeName(ci.Common())
+				if name == "(*sync.Mutex).Lock" && len(ci.Common().Args) == 1 {
+					if mfa, ok := ci.Common().Args[0].(*ssa.FieldAddr); ok {
+						mo, mf := p.fieldAddrName(mfa)
+						if direct[f] == nil {
+							direct[f] = map[string]bool{}
+						}
+						direct[f][mo+"."+mf] = true
+						sites = append(sites, acqSite{x, mo + "." + mf})
+					}
+					continue
+				}
+				if ci.Common().IsInvoke() {
+					callees[f] = append(callees[f], p.implementersOf(ci.Common())...)
+				} else {
+					callees[f] = append(callees[f], p.calleesOf(ci)...)
+				}
+			}
+		}
+	}
+	may := map[*ssa.Function]map[string]bool{}
+	for _, f := range fns {
+		may[f] = map[string]bool{}
+		for l := range direct[f] {
+			may[f][l] = true
+		}
+	}
+	for changed := true; changed; {
+		changed = false
+		for _, f := range fns {
+			for _, g := range callees[f] {
+				for l := range may[g] {
+					if !may[f][l] {
+						may[f][l] = true
+						changed = true
+					}
+				}
+			}
+		}
+	}
+	// edges held -> acquired, with one witness each
+	edges := map[string]map[string]string{}
+	add := func(h, a, w string) {
+		if h == a {
+			return
+		}
+		if edges[h] == nil {
+			edges[h] = map[string]string{}
+		}
+		if _, ok := edges[h][a]; !ok {
+			edges[h][a] = w
+		}
+	}
+	for _, s := range sites {
+		for h := range p.locksHeldAt(s.in) {
+			add(h, s.lock, p.fname(s.in.Parent())+" at "+p.ipos(s.in))
+		}
+	}
+	for _, f := range fns {
+		for _, b := range f.Blocks {
+			for _, x := range b.Instrs {
+				ci, ok := x.(ssa.CallInstruction)
+				if !ok {
+					continue
+				}
+				if _, isGo := x.(*ssa.Go); isGo {
+					continue
+				}
+				if _, isDefer := x.(*ssa.Defer); isDefer {
+					continue
+				}
+				if strings.HasPrefix(p.calleeName(ci.Common()), "(*sync.") {
+					continue
+				}
+				held := p.locksHeldAt(x)
+				if len(held) == 0 {
+					continue
+				}
+				cands := p.calleesOf(ci)
+				if ci.Common().IsInvoke() {
+					cands = p.implementersOf(ci.Common())
+				}
+				for _, g := range cands {
+					for a := range may[g] {
+						for h := range held {
+							add(h, a, p.fname(f)+" calls "+p.fname(g)+" at "+p.ipos(x))
+						}
+					}
+				}
+			}
+		}
+	}
+	var hs []string
+	for h := range edges {
+		hs = append(hs, h)
+	}
+	sortStrings(hs)
+	n := 0
+	for _, h := range hs {
+		var as []string
+		for a := range edges[h] {
+			as = append(as, a)
+		}
+		sortStrings(as)
+		for _, a := range as {
+			n++
+			// a cycle exists if h is reachable from a
+			seen := map[string]bool{}
+			var path []string
+			var dfs func(x string) bool
+			dfs = func(x string) bool {
+				if x == h {
+					return true
+				}
+				if seen[x] {
+					return false
+				}
+				seen[x] = true
+				for y := range edges[x] {
+					if dfs(y) {
+						path = append(path, x+" -> "+y+" ("+edges[x][y]+")")
+						return true
+					}
+				}
+				return false
+			}
+			cyc := dfs(a)
+			r.check(!cyc, h+" held while taking "+a, "?", "no path back from "+a+" to "+h,
+				fmt.Sprintf("%s is held while %s is taken (%s), and elsewhere the order is reversed: %s. Two goroutines on these paths can each hold one mutex and wait for the other", h, a, edges[h][a], strings.Join(path, "; ")))
+		}
+	}
+	if n == 0 {
+		r.bad("lock order edges", "?", "no 'held while acquiring' pair found: the lock-state analysis has lost its anchors")
+	}
+}
